@@ -120,3 +120,85 @@ Proof.
   unfold growth_ok. intros H Hr Hp Hdepth Hd1 Hd2. apply Qleb_true in H.
   apply dp_of_mono_growth; assumption.
 Qed.
+
+(* ---------- velocity, Reynolds number, regime switch ---------- *)
+Lemma velocity_mass_balance q rho pi d :
+  ~ rho == 0 -> ~ pi == 0 -> ~ d == 0 -> velocity q rho pi d * rho * (pi / 4 * (d * d)) == q.
+Proof. intros Hr Hp Hd. unfold velocity. field. repeat split; assumption. Qed.
+
+(* the code's 4q/(mu pi D) is the textbook rho v D / mu *)
+Lemma reynolds_textbook q rho mu pi d :
+  ~ rho == 0 -> ~ mu == 0 -> ~ pi == 0 -> ~ d == 0 ->
+  reynolds q mu pi d == rho * velocity q rho pi d * d / mu.
+Proof. intros Hr Hm Hp Hd. unfold reynolds, velocity. field. repeat split; assumption. Qed.
+
+Lemma reynolds_antimono q mu pi d1 d2 :
+  0 <= q -> 0 < mu -> 0 < pi -> 0 < d1 -> d1 <= d2 -> reynolds q mu pi d2 <= reynolds q mu pi d1.
+Proof.
+  intros Hq Hm Hp Hd1 Hd. unfold reynolds.
+  assert (Hmp : 0 < mu * pi) by nra.
+  apply Qdiv_le_antimono; [lra| nra | nra].
+Qed.
+
+Lemma velocity_antimono q rho pi d1 d2 :
+  0 <= q -> 0 < rho -> 0 < pi -> 0 < d1 -> d1 <= d2 -> velocity q rho pi d2 <= velocity q rho pi d1.
+Proof.
+  intros Hq Hr Hp Hd1 Hd. unfold velocity.
+  assert (Hqr : 0 <= q / rho) by (apply Qle_shift_div_l; lra).
+  assert (H11 : 0 < d1 * d1) by nra. assert (H12 : d1 * d1 <= d2 * d2) by nra.
+  apply Qdiv_le_antimono; [exact Hqr| |].
+  - assert (0 < pi / 4) by (apply Qlt_shift_div_l; lra). nra.
+  - assert (0 < pi / 4) by (apply Qlt_shift_div_l; lra). nra.
+Qed.
+
+(* which branch the code takes: strictly below 2300 laminar, AT and above 2300 the turbulent correlation *)
+Lemma well_f_laminar_branch colebrook q mu pi d :
+  reynolds q mu pi d < 2300 -> well_f colebrook q mu pi d = f_laminar (reynolds q mu pi d).
+Proof. intros H. unfold well_f. apply Qltb_true in H. now rewrite H. Qed.
+
+Lemma well_f_turbulent_branch colebrook q mu pi d :
+  2300 <= reynolds q mu pi d -> well_f colebrook q mu pi d = colebrook ((1 # 10000) / d) (reynolds q mu pi d).
+Proof. intros H. unfold well_f. apply Qltb_false in H. now rewrite H. Qed.
+
+(* enlarging the diameter never takes a laminar well back to the turbulent branch *)
+Lemma laminar_stays_laminar q mu pi d1 d2 :
+  0 <= q -> 0 < mu -> 0 < pi -> 0 < d1 -> d1 <= d2 -> reynolds q mu pi d1 < 2300 -> reynolds q mu pi d2 < 2300.
+Proof. intros Hq Hm Hp Hd1 Hd H. pose proof (reynolds_antimono q mu pi d1 d2 Hq Hm Hp Hd1 Hd). lra. Qed.
+
+(* the laminar factor just below the switch stays above 64/2300: the code's f is not continuous at Re = 2300 unless
+   the turbulent correlation happens to return 64/2300 there *)
+Lemma laminar_factor_above_limit re : 0 < re -> re < 2300 -> 64 / 2300 < f_laminar re.
+Proof.
+  intros H0 H. unfold f_laminar. apply Qlt_shift_div_l; [exact H0|].
+  setoid_replace (64 / 2300 * re) with ((64 # 2300) * re) by field. lra.
+Qed.
+
+(* series: ONE branch for all time steps, decided by the average Reynolds number *)
+Lemma friction_series_laminar q pi d mu fturb :
+  laminar_regime q pi d mu = true -> friction_series q pi d mu fturb = map (fun m => f_laminar (reynolds q m pi d)) mu.
+Proof. intros H. unfold friction_series. now rewrite H. Qed.
+
+Lemma friction_series_turbulent q pi d mu fturb :
+  laminar_regime q pi d mu = false -> friction_series q pi d mu fturb = fturb.
+Proof. intros H. unfold friction_series. now rewrite H. Qed.
+
+Lemma regime_decided_by_average :
+  exists q pi d mu fturb, laminar_regime q pi d mu = true /\ 2300 <= reynolds q (nth 0 mu 0) pi d /\
+    nth 0 (friction_series q pi d mu fturb) 0 == f_laminar (reynolds q (nth 0 mu 0) pi d).
+Proof.
+  exists 1, (355 # 113), (6 # 10), [(8 # 10000); (12 # 10000)], [(4 # 100); (4 # 100)].
+  split; [vm_compute; reflexivity|]. split; vm_compute; [discriminate|reflexivity].
+Qed.
+
+(* the pressure loss of a step is Darcy-Weisbach on the step's own friction factor and density *)
+Lemma dp_series_nth q pi depth d : forall f rho i, (i < length f)%nat -> (i < length rho)%nat ->
+  nth i (dp_series q pi depth d f rho) 0 = dp_of (nth i f 0) q (nth i rho 0) pi depth d.
+Proof.
+  induction f as [|x f IH]; intros rho i Hf Hr; [cbn in Hf; lia|].
+  destruct rho as [|r rho]; [cbn in Hr; lia|]. destruct i as [|j]; [reflexivity|].
+  cbn [dp_series nth]. apply IH; cbn in Hf, Hr; lia.
+Qed.
+
+Lemma dp_of_formula f q rho pi depth d :
+  dp_of f q rho pi depth d = f * (rho * (velocity q rho pi d * velocity q rho pi d) / 2) * (depth / d) / 1000.
+Proof. reflexivity. Qed.
